@@ -198,6 +198,28 @@ def service(rid, src, dst, mode, bidir, spacing, trx=TRX, via=()):
     return d
 
 
+def spectrum_partitions(baud, slot, tx_osnrs, f0=191.4e12, width=2.0e12, gap=0.1e12):
+    """user-defined spectrum (the JSON form of a spectrum file): consecutive partitions of `width` Hz, one per tx_osnr"""
+    return [{'f_min': f0 + k * (width + gap), 'f_max': f0 + k * (width + gap) + width, 'baud_rate': baud,
+             'slot_width': slot, 'roll_off': 0.15, 'tx_osnr': t, 'label': f'part{k}'} for k, t in enumerate(tx_osnrs)]
+
+
+def spectrum_carriers_tx(partitions):
+    """reciprocal transmitter OSNR per carrier, in frequency order, read from the spectrum AS WRITTEN (one carrier
+    every slot_width from f_min to f_max of each partition)"""
+    out = []
+    for part in sorted(partitions, key=lambda q: q['f_min']):
+        n = int((part['f_max'] - part['f_min']) // part['slot_width']) + 1
+        out += [inv9(part.get('tx_osnr', 40))] * n
+    return out
+
+
+def load_spectrum(partitions):
+    """the implementation's own loader of a spectrum description"""
+    from gnpy.tools.json_io import _spectrum_from_json
+    return _spectrum_from_json(copy.deepcopy(partitions))
+
+
 BAND = {'lower-frequency': 191.3e12, 'upper-frequency': 196.1e12}
 
 
@@ -328,17 +350,20 @@ class Bench:
                         'dflt': inv9(entry.get('add_drop_osnr', 100) + LOG2)})
         return out
 
-    def pristine(self, src, dst, direction, spacing, mode_json, via=()):
+    def pristine(self, src, dst, direction, spacing, mode_json, via=(), spectrum=None):
         """mode propagated ALONE on a fresh deepcopy of the (reverse) path with the implementation's propagate();
         cached by everything that can influence the figures (thresholds and min_spacing cannot)"""
         from gnpy.tools.json_io import requests_from_json
         from gnpy.topology.request import propagate, find_reversed_path
         phys = {k: mode_json.get(k) for k in ('baud_rate', 'roll_off', 'tx_osnr', 'equalization_offset_db', 'penalties')}
-        key = (src, dst, tuple(via), direction, spacing, json.dumps(phys, sort_keys=True))
+        key = (src, dst, tuple(via), direction, spacing, json.dumps(phys, sort_keys=True),
+               json.dumps(spectrum, sort_keys=True))
         if key not in self._pristine:
             m = dict(copy.deepcopy(mode_json), format='solo', OSNR=0, min_spacing=min(mode_json['min_spacing'], spacing))
             eq = self.equipment([m], None)
             req = requests_from_json({'path-request': [service('solo', src, dst, 'solo', False, spacing)]}, eq)[0]
+            if spectrum:
+                req.initial_spectrum = load_spectrum(spectrum)
             p = self.path(src, dst, spacing, via)
             p = fresh_copy(find_reversed_path(p) if direction else p)
             with RxRecorder() as rec:
@@ -425,22 +450,31 @@ def run_request(bench, eq, src, dst, fixed_format, bidir, spacing):
     return rqs[0], rec.take(), exc
 
 
-def run_batch(bench, eq, src, dst, fixed_format, bidir, spacing, vias):
-    """one call of compute_path_with_disjunction for a batch of requests identical but for their route constraint
-    (vias[i]); returns (requests, evaluations tagged with the request id, exception text, the three result lists)"""
+def run_batch(bench, eq, src, dst, fixed_format, flags, spacing, vias, spectrum=None):
+    """the services of ONE service file - identical but for their route constraint (vias[i]) and their bidirectional
+    flag (flags[i]) - through the steps of worker_utils.planning up to the verdict: requests_from_json,
+    correct_json_route_list, requests_aggregation, then compute_path_with_disjunction on the routes of the resulting
+    requests.  Returns (requests after aggregation, [index of the request serving service i], evaluations tagged with
+    the request id, exception text, the three result lists)"""
     from gnpy.tools.json_io import requests_from_json
-    from gnpy.topology.request import compute_path_with_disjunction, correct_json_route_list
-    rqs = requests_from_json({'path-request': [service(f'r{i}', src, dst, fixed_format, bidir, spacing, via=v)
-                                               for i, v in enumerate(vias)]}, eq)
+    from gnpy.topology.request import compute_path_with_disjunction, correct_json_route_list, requests_aggregation
+    rqs = requests_from_json({'path-request': [service(f'r{i}', src, dst, fixed_format, f, spacing, via=v)
+                                               for i, (v, f) in enumerate(zip(vias, flags))]}, eq)
     rqs = correct_json_route_list(bench.net, rqs)
-    pths = [bench.path(src, dst, spacing, v) for v in vias]
-    exc, res = None, None
+    exc, res, serving = None, None, list(range(len(vias)))
     with RxRecorder() as rec:
         try:
+            rqs, _ = requests_aggregation(rqs, [])
+            ids = [str(r.request_id).split(' | ') for r in rqs]
+            serving = [next(k for k, group in enumerate(ids) if f'r{i}' in group) for i in range(len(vias))]
+            if spectrum:
+                for r in rqs:
+                    r.initial_spectrum = load_spectrum(spectrum)
+            pths = [bench.path(src, dst, spacing, vias[serving.index(k)]) for k in range(len(rqs))]
             res = compute_path_with_disjunction(bench.net, eq, rqs, pths)
         except Exception as e:                                   # noqa - an exception on a valid request is a finding
             exc = f'{type(e).__name__}: {e}'
-    return rqs, rec.take(), exc, res
+    return rqs, serving, rec.take(), exc, res
 
 
 def project_reported(receiver, mode_idx):
